@@ -332,7 +332,7 @@ impl Property for C12 {
     fn rule(&self) -> &'static str {
         "seeded histories over {play, stop, rewind, advance n T (in 1..16 T bus-wait steps)} on the real Tap \
          state machine with commands aimed at waveform phases (pilot, sync, mid-byte, 128-byte refill, pause, after \
-         end); distinct = (command, waveform phase class at the command, deck state before, avoid-known mode)"
+         end); a third of the histories aim the first stop by counting edges (last pilot pulse / sync 1 / sync 2 / first bit); two per batch use tapes of 258..515 blocks rewound inside block 256 or 512; distinct = (command, waveform phase class at the command, deck state before, avoid-known mode)"
     }
     fn state_measure(&self) -> &'static str {
         "distinct (deck playing?, phase class, blocks emitted since reset) triples observed at command time"
